@@ -171,6 +171,11 @@ def synthetic(rng, wild=False):
     many = [(60 * (i - 100), bool(i % 5 == 3), 'A%02d' % (i % 40)) for i in range(200)]      # abbreviation offsets are bytes too
     Z.append(('many-types', W([ts(1970, 1, 1) + 30 * 86400 * (i + 1) for i in range(199)], list(range(1, 200)), many)))
     Z.append(('many-types-high-first', W([ts(1980), ts(1990), ts(2000)], [199, 130, 128], many)))
+    # an offset drop larger than the distance to the previous transition: the wall-clock positions of the transitions are
+    # not ascending, yet no wall time has more than two pre-images
+    U = ts(1985, 6, 1, 12)
+    Z.append(('rename-then-fold', W([U, U + 1800], [1, 2], [(3600, False, 'AAA'), (3600, False, 'BBB'), (0, False, 'CCC')])))
+    Z.append(('rename-then-big-fold', W([U, U + 3600], [2, 1], [(14400, False, 'AAA'), (0, True, 'BBB'), (14400, False, 'CCC')])))
     # random well-spaced zones
     for n in range(6):
         k = rng.randint(2, 12)
@@ -192,6 +197,8 @@ def synthetic(rng, wild=False):
         # offset changes larger than the spacing of transitions (C06 only: UTC -> type is still well defined)
         Z.append(('wild-jumps', W([ts(2000, 1, 1), ts(2000, 1, 1, 1), ts(2000, 1, 1, 2), ts(2000, 1, 1, 3)], [1, 2, 0, 1],
                                   [(0, False, 'AAA'), (36000, True, 'BBB'), (-36000, False, 'CCC')])))
+        U = ts(1985, 6, 1, 12)
+        Z.append(('wild-flip-flop-10min', W([U, U + 600, U + 1200, U + 1800], [2, 1, 2, 1], [(3600, False, 'AAA'), (0, False, 'BBB'), (3600, False, 'CCC')])))
         Z.append(('wild-many-types', W([ts(1999, 12, 31, 23) + 600 * i for i in range(12)], [(i % 4) for i in range(12)],
                                        [(0, False, 'Q0'), (3600, True, 'Q1'), (-7200, False, 'Q2'), (1800, True, 'Q3')])))
     return Z
